@@ -89,6 +89,8 @@ def cases():
     yield ("output above source dir", "src_dir: ./code/src\noutput_dir: ./code\ngraph: false\n", {"proj/code/src/m.f90": SRC, "proj/code/notes.txt": "n"}, ("proj/nothing",), True)
     yield ("second source dir inside output", "src_dir: ./src\n    ./doc/gen\noutput_dir: ./doc\ngraph: false\n", {"proj/doc/gen/g.f90": SRC}, ("proj/nothing",), True)
     yield ("graph_dir holding input files", "src_dir: ./src\noutput_dir: ./doc\ngraph: true\ngraph_dir: ./src\n", None, ("proj/doc", "proj/src"), False)
+    yield ("ordered_subpage entry climbing out of the page directory", "src_dir: ./src\noutput_dir: ./doc\ngraph: false\npage_dir: ./pages\n",
+           {"proj/pages/index.md": "---\ntitle: Pages\nordered_subpage: sub/../../x.md\n---\nhello\n", "proj/x.md": "---\ntitle: Outside\n---\noutside\n"}, ("proj/doc",), False)
     yield ("stale output directory", "src_dir: ./src\noutput_dir: ./doc\ngraph: false\n", {"proj/doc/stale.html": "old"}, ("proj/doc",), False)
 
 
